@@ -411,6 +411,21 @@ class _DeMorgan(ast.NodeTransformer):
         return node
 
 
+class _SwapCmp(ast.NodeTransformer):
+    """`a < b` -> `b > a`, `a == b` -> `b == a` ... for single comparisons (not `in` / `is`)."""
+    _MIRROR = {ast.Lt: ast.Gt, ast.Gt: ast.Lt, ast.LtE: ast.GtE, ast.GtE: ast.LtE, ast.Eq: ast.Eq, ast.NotEq: ast.NotEq}
+
+    def __init__(self):
+        self.n = 0
+
+    def visit_Compare(self, node):
+        self.generic_visit(node)
+        if len(node.ops) == 1 and type(node.ops[0]) in self._MIRROR:
+            self.n += 1
+            return ast.copy_location(ast.Compare(left=node.comparators[0], ops=[self._MIRROR[type(node.ops[0])]()], comparators=[node.left]), node)
+        return node
+
+
 def rewrite_function(program: Program, qualname: str, kind: str) -> Program | None:
     fi = program.functions.get(qualname)
     if fi is None:
@@ -433,6 +448,11 @@ def rewrite_function(program: Program, qualname: str, kind: str) -> Program | No
         h = _Hoist()
         h.generic_visit(target)
         if h.n == 0:
+            return None
+    elif kind == "swapcmp":
+        w = _SwapCmp()
+        w.visit(target)
+        if w.n == 0:
             return None
     elif kind == "demorgan":
         d = _DeMorgan()
@@ -583,7 +603,7 @@ def run(ctx: Ctx) -> None:
     targets += sorted(q for q in ctx.analysed_functions if q not in targets and q in ctx.p.functions)     # everything the check looked at
     jobs.append(("rewrite", prop, "<whole tree>", "reformat"))
     for q in targets:
-        for kind in ("rename", "aug", "pass", "hoist", "flip", "demorgan"):
+        for kind in ("rename", "aug", "pass", "hoist", "flip", "demorgan", "swapcmp"):
             jobs.append(("rewrite", prop, q, kind))
     _BASE = ctx.p
     nproc = max(1, min(16, os.cpu_count() or 1, len(jobs)))
